@@ -26,8 +26,9 @@ from vlib import common as C
 from checks import c11 as K11
 
 sys.path.insert(0, os.path.join(C.ROOT, "tools"))
-import translate_loads  # noqa: E402
+import translate_flow  # noqa: E402
 import c12_members  # noqa: E402
+import c12_ast  # noqa: E402
 from cxx2lean import Refuse  # noqa: E402
 
 TYPES = list(K11.SIMPLE) + ["imep", "team", "pop", "summ", "lam"]
@@ -49,12 +50,20 @@ BUDGET = {
 FAILISH = ("fail", "exc:bad_alloc", "exc:length_error", "null", "exc:data_format")
 
 
+def tools_key():
+    """everything the generated files depend on beside the vita sources"""
+    txt = ""
+    for f in ("translate_flow.py", "translate_loads.py", "c12_members.py", "c12_ast.py", "cxx2lean.py",
+              os.path.join("tu", c12_ast.TU)):
+        txt += open(os.path.join(C.ROOT, "tools", f)).read()
+    return C.repo_tree_hash(txt)
+
+
 def regen(chk, broken):
-    """GenLoads.lean from the current tree (cached by source hash)."""
-    gen = os.path.join(C.LEAN, "Vita", "C12", "GenLoads.lean")
+    """GenFlow.lean from the current tree (cached by source hash)."""
+    gen = os.path.join(C.LEAN, "Vita", "C12", "GenFlow.lean")
     stamp = os.path.join(C.BUILD, "c12_gen.stamp")
-    key = C.repo_tree_hash(open(translate_loads.__file__).read() +
-                           open(os.path.join(C.ROOT, "tools", "tu", "loads_tu.cc")).read())
+    key = tools_key()
     os.makedirs(C.BUILD, exist_ok=True)
     try:
         if os.path.exists(stamp) and os.path.exists(gen):
@@ -63,14 +72,15 @@ def regen(chk, broken):
                 chk.cov["translated"] = translate_loads_names(gen)
                 chk.cov["gen_cached"] = True
                 return True
-        names, changed = translate_loads.emit(gen)
+        names, changed = translate_flow.emit(gen)
         chk.cov["translated"] = names
         chk.cov["gen_changed_vs_committed"] = bool(changed)
         with open(stamp, "w") as f:
             f.write(key + "\n" + open(gen).read())
         return True
     except Refuse as e:
-        broken.append("translator tools/translate_loads.py refuses the current load functions: %s" % e)
+        broken.append("translator tools/translate_flow.py refuses the current load functions / stream "
+                      "constructors: %s" % e)
         return False
 
 
@@ -78,8 +88,7 @@ def regen_members(chk, broken):
     """harness/c12_members_gen.h + the member table from the current tree (cached by source hash)."""
     hdr = os.path.join(C.ROOT, "harness", "c12_members_gen.h")
     stamp = os.path.join(C.BUILD, "c12_members.stamp")
-    key = C.repo_tree_hash(open(c12_members.__file__).read() +
-                           open(os.path.join(C.ROOT, "tools", "tu", "loads_tu.cc")).read())
+    key = tools_key()
     os.makedirs(C.BUILD, exist_ok=True)
     try:
         if os.path.exists(stamp) and os.path.exists(hdr):
@@ -143,7 +152,14 @@ def hexs(b):
 def run(chk, replay=None):
     rng = C.SplitMix(chk.seed)
     broken = []
-    gen_ok = regen(chk, broken)
+    # the two generators share the clang dumps; libvita + the C11 generator harness build meanwhile
+    with cf.ThreadPoolExecutor(3) as ex:
+        f_ser = ex.submit(K11.build_harness)
+        f_gen = ex.submit(regen, chk, broken)
+        f_mem = ex.submit(regen_members, chk, broken)
+        gen_ok = f_gen.result()
+        table = f_mem.result()
+        ser = f_ser.result()
     drv_ok = False
     if gen_ok:
         ok, msg = chk.prove("Vita.C12.Props", ["Vita.C12.Props", "c12_driver"])
@@ -154,8 +170,6 @@ def run(chk, replay=None):
     if not okd:
         broken.append("c12_driver does not build: " + C.lean_errors(out))
 
-    table = regen_members(chk, broken)
-    ser = K11.build_harness()
     try:
         exe = C.build_harness("c12_load", "asan", extra_flags=["-DVERIF_INC=" + K11.inc_hash()])
     except RuntimeError as e:
@@ -396,14 +410,17 @@ def run(chk, replay=None):
         chk.notes += broken
     return chk.finish(
         level="proof",
-        checker_cmd="tools/translate_loads.py > GenLoads.lean && lake build Vita.C12.Props c12_driver && "
+        checker_cmd="tools/translate_flow.py > GenFlow.lean && tools/c12_members.py > harness/c12_members_gen.h && "
+                    "lake build Vita.C12.Props c12_driver && "
                     "lake env lean <#print axioms for every theorem>",
         rule="for each valid serialization from the C11 generator: every byte prefix (all offsets up to the "
              "tier's length bound, sampled beyond), and per token: deletion, non-numeric replacement, same-digit-"
              "count numeric substitution (incl. all nines), sign flip; each on a target with unrelated valid "
              "content; distinct = distinct (type, bytes)",
-        trusted=["Lean 4.33 kernel", "tools/translate_loads.py + cxx2lean.py (clang-14 JSON AST -> Stmt syntax; "
-                 "classification rules listed in its header)", "abstract statement semantics Vita/C12/CommitLast.lean",
+        trusted=["Lean 4.33 kernel", "tools/translate_flow.py (+ translate_loads.py helpers, cxx2lean.py): clang-14 "
+                 "JSON AST -> data-flow Stmt syntax; classification rules listed in its header",
+                 "abstract data-flow semantics Vita/C12/Flow.lean (Exec)",
+                 "tools/c12_members.py (clang-14 JSON AST -> member table) + value rules of harness/c12_snap.h",
                  "hand-written loadInto models (Vita/C12/Model.lean) over the C11 text layer, validated by the "
                  "differential run", "harness/c12_load.cc snapshots (raw cached signature via explicit-instantiation "
                  "access), g++ 12 ASan/UBSan"])
